@@ -155,7 +155,18 @@ async fn main_task<K: HKey>(spec: SeqSpec, history: Vec<Op>) -> MainOut {
                 w.snapshot_restarts = true;
             }
         }
+        if spec.checks.sync {
+            let a = active_id(&w).await;
+            ctl::with_ctl(|c| c.log.borrow_mut().mark(format!("begin {} active={}", op_name(*op), a.map_or("none".to_string(), |x| x.to_string()))));
+        }
         let out = apply_op(&mut w, *op).await;
+        if spec.checks.sync {
+            let ok = !matches!(out, Outcome::Res(crate::model::Res::Err, _) | Outcome::Count(Err(_)));
+            if matches!(op, Op::CloseBg) {
+                ctl::quiesce().await;
+            }
+            ctl::with_ctl(|c| c.log.borrow_mut().mark(format!("end {} {}", op_name(*op), if ok { "ok" } else { "err" })));
+        }
         if let Some(s) = w.restart_snapshot.take() {
             // the harness itself damaged a blob: judge pearl from the damaged state on
             snap_before = Some(s);
@@ -173,6 +184,10 @@ async fn main_task<K: HKey>(spec: SeqSpec, history: Vec<Op>) -> MainOut {
             };
         }
         ctl::quiesce().await;
+        if spec.checks.sync {
+            let a = active_id(&w).await;
+            ctl::with_ctl(|c| c.log.borrow_mut().mark(format!("quiescent active={}", a.map_or("none".to_string(), |x| x.to_string()))));
+        }
         if last {
             outcome = out;
         }
@@ -226,6 +241,18 @@ async fn main_task<K: HKey>(spec: SeqSpec, history: Vec<Op>) -> MainOut {
         dir,
         worker_alive,
     }
+}
+
+fn op_name(op: Op) -> String {
+    format!("{op:?}").split(|c: char| !c.is_alphanumeric()).next().unwrap_or("").to_string()
+}
+
+async fn active_id<K: HKey>(w: &World<K>) -> Option<usize> {
+    let s = w.storage.as_ref()?;
+    if !s.has_active_blob().await {
+        return None;
+    }
+    s.records_count_detailed().await.last().map(|x| x.0)
 }
 
 async fn apply_op<K: HKey>(w: &mut World<K>, op: Op) -> Outcome {
